@@ -27,6 +27,10 @@ def generate(rng, tier, n=None, **kw):
     for i in range(n):
         w = H.W_API if i % 3 else H.W_MIX
         out.append(("h%d" % i, H.gen_history(rng, w)))
+    # routing scenarios (vp/props/c09.py): batches over several providers with lost / unowned / unknown targets,
+    # duplicates and ill-typed values in every position - each answered with one status whose class is judged
+    from . import c09
+    out += [("route%d" % i, c09.routing_scenario(rng)) for i in range(50 if tier == "quick" else 1000)]
     return out
 
 
